@@ -39,7 +39,9 @@ ASSUMPTIONS = ["the document's own prose defines no id attributes or '#...' link
 RULE = ("Markdown documents with 1-3 independent recipes (```new-recipe) of 1-3 blocks each; sub recipes with single and "
         "multiple outputs, adversarial output names (spaces, punctuation, quotes, < > &, non-ASCII, names made only of "
         "punctuation, embedded scaled numbers {n}, pairs that sanitise to the same id), references with every amount "
-        "form, across blocks, statements that consist solely of a reference (root-level reference cells, in first and "
+        "form, across blocks, references to the second / third output of a multi-output sub recipe with quantities, "
+        "proportions and whole amounts next to an inlined single-use sub recipe (the link must land on the list item "
+        "of the output NAMED in the source), statements that consist solely of a reference (root-level reference cells, in first and "
         "later independent recipes, in the defining and in later blocks), documents in which a later block of the same recipe re-defines an output name (must be "
         "rejected, otherwise rendered and checked), names of 50-80 characters sharing their first 40+; rendered at scales 1, 2, 1/3, 0.5, "
         "2.5 and, for names holding scaled numbers, at numerically equal scales of different type one after the other "
@@ -169,6 +171,48 @@ def gen_rootref_doc(rng: random.Random) -> str:
     return "\n".join(parts)
 
 
+MULTI_NAMES = ["stock", "veg", "yolks", "the juice", "a b", "a-b", "c<d>", "it's", "q\"r", "left over bits", "x.y",
+               "Zest", "\u00e9clair cream", "100% rye", "bones & skin"]
+QTY = ["200g of the ", "2 ", "{30 ml} of the ", "3 tsp ", "1 1/2 cups of "]
+PROP = ["1/2 of the ", "50% of the ", "rest of the ", "remaining ", "0.25 * "]
+
+
+def gen_multiref_doc(rng: random.Random) -> Tuple[str, List[Optional[str]]]:
+    """Recipes that reference the SECOND / THIRD output of a multi-output sub recipe with quantities, proportions
+    and whole amounts, next to an unrelated single-use sub recipe that the compiler inlines.  Returns the document
+    and, for every link in document order, the output name WRITTEN in the source at that place (None = not tracked)."""
+    parts = ["# Title for 2\n"]
+    expect: List[Optional[str]] = []
+    for ri in range(rng.choice((1, 1, 2))):
+        names = rng.sample(MULTI_NAMES, rng.choice((2, 3, 3)))
+        q = [quote([n]) for n in names]
+        b1 = [f"{', '.join(q)} := boil(ing{ri}a, ing{ri}b)"]
+        inl = rng.choice(['"yolk mix" := whisk(2 eggs)', "1 egg", '"crumb" = blitz(2 slices bread)'])
+        inl_name = {"1 egg": "egg"}.get(inl, inl.split(" ")[0] if not inl.startswith('"yolk') else '"yolk mix"')
+        b1.append(inl)
+        b1.append(f"fry({inl_name}, ing{ri}c)")          # the single use, same block: the compiler inlines it
+
+        def use(step: str) -> str:
+            args = []
+            for _ in range(rng.choice((1, 2, 3))):
+                j = rng.randrange(1, len(names)) if rng.random() < 0.8 else 0      # mostly NON-first outputs
+                args.append(rng.choice(QTY + PROP + ["", ""]) + q[j])
+                expect.append(names[j])
+            return f"{step}({', '.join(args)}, ing{ri}{step})"
+
+        b1.append(use("blend"))
+        b2 = [use("fold")]
+        if rng.random() < 0.5:
+            j = rng.randrange(1, len(names))
+            b2.append(rng.choice(QTY + PROP) + q[j])              # a statement that is only a reference
+            expect.append(names[j])
+        blocks = [b1 + b2] if rng.random() < 0.4 else [b1, b2]
+        for bi, b in enumerate(blocks):
+            fence = "new-recipe" if (bi == 0 and ri > 0) else "recipe"
+            parts.append(f"```{fence}\n" + "\n".join(b) + "\n```\n")
+    return "\n".join(parts), expect
+
+
 def gen_redefine_doc(rng: random.Random) -> str:
     """One recipe over 2-3 blocks in which a LATER block defines an output name that an earlier block already
     defined (and references it).  The compiler must reject such a document (NameRedefinedError: trivially fine); a
@@ -264,6 +308,38 @@ def element_positions(tokens) -> List[Tuple[str, Tuple[int, Optional[int]]]]:
     return out
 
 
+def li_texts(tokens) -> Dict[str, List[str]]:
+    """id -> visible texts of the <li> elements carrying that id."""
+    out: Dict[str, List[str]] = {}
+    cur: Optional[Tuple[str, List[str]]] = None
+    for t in tokens:
+        if t[0] == "start" and t[1] == "li":
+            i = dict(t[2]).get("id")
+            cur = (i, []) if i is not None else None
+        elif t[0] == "end" and t[1] == "li" and cur is not None:
+            out.setdefault(cur[0], []).append("".join(cur[1]))
+            cur = None
+        elif t[0] == "text" and cur is not None:
+            cur[1].append(t[1])
+    return out
+
+
+def named_target_violation(expect: List[Optional[str]], hrefs: List[str], tokens) -> Optional[str]:
+    """The link written as a reference to the output NAMED n must land on the list item showing n."""
+    if len(expect) != len(hrefs):
+        return f"{len(hrefs)} links for {len(expect)} references written in the source"
+    lis = li_texts(tokens)
+    for n, h in zip(expect, hrefs):
+        if n is None:
+            continue
+        got = lis.get(h[1:])
+        if not got:
+            return f"the reference to output {n!r} links to {h!r}, which is not a list item of an output list"
+        if n not in got:
+            return f"the reference to output {n!r} links to {h!r}, the list item of output {got[0]!r}"
+    return None
+
+
 def oracle(scaled: List[List[Any]], html_ids, hrefs, tokens, unscaled: Optional[List[List[Any]]] = None
            ) -> Tuple[Optional[str], Dict[str, Any]]:
     """Every '#...' href has exactly one element with that id and it is the defining table / list item."""
@@ -354,6 +430,11 @@ def ids_case(inp: Dict[str, Any]) -> Optional[Case]:
     ids, hrefs, tokens = extract(html)
     scaled = [[r.scale(scale) for r in rs] for rs in m.recipes]
     viol, info = oracle(scaled, ids, hrefs, tokens, m.recipes)
+    if inp.get("expect") is not None:
+        nv = named_target_violation(inp["expect"], hrefs, tokens)
+        if nv is not None:
+            info["other"].append(nv)          # never a known finding
+            viol = nv
     page = coqio.lst([ser.blocks(rs) for rs in scaled], "(list (list node))")
     out = coqio.pair(coqio.lst([coqio.pair(coqio.string(i), coqio.string(t)) for i, t in ids], "(str * str)"),
                      coqio.lst([coqio.string(h) for h in hrefs], "str"))
@@ -370,7 +451,10 @@ def ids_case(inp: Dict[str, Any]) -> Optional[Case]:
             isinstance(tr, _R.Reference) for rs in scaled[1:] for r in rs for tr in r.recipe_trees) else ""))
     if any(len(i) > 50 for i, _ in ids):
         tags.append("ids:long-name")
-    return Case(input={"suite": "ids", "doc": doc, "scale": inp["scale"], "before": inp.get("before")}, coq_in=page,
+    if inp.get("expect") is not None:
+        tags.append("ids:named-nonfirst-output")
+    return Case(input={"suite": "ids", "doc": doc, "scale": inp["scale"], "before": inp.get("before"),
+                       "expect": inp.get("expect")}, coq_in=page,
                 coq_out=f"(Ok {out})",
                 impl={"ids": ids, "hrefs": hrefs, "oracle": info}, violation=viol, nontrivial=bool(hrefs), tags=tags)
 
@@ -386,6 +470,7 @@ def suites(tier: str, seed: int) -> List[Suite]:
     docs = list(HAND_DOCS) + [gen_doc(rng) for _ in range(ndocs)]
     docs += [gen_redefine_doc(rng) for _ in range(20 if tier == "quick" else 200)]
     docs += [gen_rootref_doc(rng) for _ in range(30 if tier == "quick" else 300)]
+    multiref = [gen_multiref_doc(rng) for _ in range(40 if tier == "quick" else 400)]
     seen = set()
     for d in docs:
         for sc in ([1, 2, Fraction(1, 3)] if d in HAND_DOCS else rng.sample(SCALES, 2)):
@@ -402,11 +487,18 @@ def suites(tier: str, seed: int) -> List[Suite]:
                         continue
                     seen.add(c.key())
                     su.cases.append(c)
+    for d, ex in multiref:
+        for sc in rng.sample(SCALES, 2):
+            c = ids_case({"doc": d, "scale": coqio.num_json(sc), "expect": ex})
+            if c is None or c.key() in seen:
+                continue
+            seen.add(c.key())
+            su.cases.append(c)
     return [su]
 
 
 def replay(inp: Any) -> Case:
-    c = ids_case({"doc": inp["doc"], "scale": inp["scale"], "before": inp.get("before")})
+    c = ids_case({"doc": inp["doc"], "scale": inp["scale"], "before": inp.get("before"), "expect": inp.get("expect")})
     if c is None:
         raise ValueError("document does not compile")
     return c
